@@ -129,6 +129,8 @@ func (x *exec) histC12() {
 				continue
 			}
 			x.relations(i, ei, d, st.C)
+		case "nsrebind":
+			x.nsRebind()
 		case "gc":
 			for _, h := range hs {
 				if h.dead {
